@@ -6,7 +6,7 @@
    starts (its last value is k_g0 / RGen g), so generated values do not depend on wall-clock time during a case; the
    clock-dependent branch of Generate is compared separately (gcase). *)
 From Coq Require Import List ZArith NArith Bool.
-From Gluon Require Export Model.UidValidityGen Model.MailStore Model.MailStoreDedup.
+From Gluon Require Export Model.UidValidityGen Model.MailStore Model.MailStoreDedup Model.MailStoreUpdate.
 Import ListNotations.
 Open Scope Z_scope.
 
@@ -16,7 +16,9 @@ Inductive rstep :=
 | RS (o : op) (ob : obs)
 | RGen (g : Z)               (* after ORestart: the fresh generator was advanced to g before the server started *)
 | RI (io : iop)
-| RD (o : op) (ob : obs).    (* the operation with a de-duplicating remote (Model.MailStoreDedup.step_dedup) *)
+| RD (o : op) (ob : obs)     (* the operation with a de-duplicating remote (Model.MailStoreDedup.step_dedup) *)
+| RU (name : path) (uid : Z) (newlit : option N) (names : list path) (ob : obs).
+                             (* connector MessageUpdated for the message at name/uid (Model.MailStoreUpdate.conn_update) *)
 Record mdump := mkDump { d_name : path; d_uidv : Z; d_uidnext : Z; d_rows : list (Z * N) }.
 Record case := mkCase { k_id : nat; k_cfg : cfg; k_hash : list (N * option N); k_g0 : Z; k_steps : list rstep;
                         k_final : list mdump; k_listed : bool }.
@@ -60,6 +62,10 @@ Fixpoint run_steps (k : case) (st : store * pending) (l : list rstep) : (store *
   | RI io :: t => run_steps k (istep (hashf (k_hash k)) facts_now (k_cfg k) clock0 st io) t
   | RD o ob :: t =>
     let '(s', r) := step_dedup (hashf (k_hash k)) facts_now (k_cfg k) clock0 (fst st) o in
+    let '(st2, ok) := run_steps k (s', snd st) t in
+    (st2, res_matches r ob && ok)
+  | RU n u l ns ob :: t =>
+    let '(s', r) := conn_update (k_cfg k) (fst st) n u l ns in
     let '(st2, ok) := run_steps k (s', snd st) t in
     (st2, res_matches r ob && ok)
   end.
